@@ -1,5 +1,84 @@
-(* Wire entry points of the C08 model (stub until the model is built). *)
-From Coq Require Import ZArith List.
-From SG Require Import Base.Sx.
+(* Wire entry points of the C08 model (local tensor quadrature grids). *)
+From Coq Require Import ZArith List QArith Qcanon Bool Arith.
+From SG Require Import Base.Sx Base.QcUtil Model.Tensor Model.LocalGrids.
+Import ListNotations.
 Open Scope Z_scope.
-Definition entry_C08 (sub : Z) (a : sx) : sx := sx_err 0.
+
+Definition of_nat (n : nat) : sx := Zv (Z.of_nat n).
+Definition of_Lnat (l : list nat) : sx := Lv (map of_nat l).
+Definition get_Lnat (s : sx) : option (list nat) :=
+  match get_LZ s with Some l => Some (map Z.to_nat l) | None => None end.
+Definition get_LLnat (s : sx) : option (list (list nat)) :=
+  match s with Lv l => opt_all (map get_Lnat l) | _ => None end.
+
+Definition get_dim1 (s : sx) : option dim1 :=
+  match s with
+  | Lv [a; b; st; en; Zv l] =>
+    match get_Qc a, get_Qc b, get_Qc st, get_Qc en with
+    | Some a, Some b, Some st, Some en => Some {| d_a := a; d_b := b; d_s := st; d_e := en; d_level := Z.to_nat l |}
+    | _, _, _, _ => None
+    end
+  | _ => None
+  end.
+Definition get_dims (s : sx) : option (list dim1) :=
+  match s with Lv l => opt_all (map get_dim1 l) | _ => None end.
+
+Definition eqfam_of (z : Z) : option eqfam :=
+  match z with 0 => Some FTrap | 1 => Some FTrapMod | 2 => Some FSimpson | 3 => Some FSimpsonAsIs | _ => None end.
+Definition cntfam_of (z : Z) : option cntfam :=
+  match z with 0 => Some CEq | 1 => Some CCC | 2 => Some CLeja | 3 => Some CGauss | _ => None end.
+
+Definition get_pair (s : sx) : option (Qc * Qc) :=
+  match s with Lv [x; y] => match get_Qc x, get_Qc y with Some x, Some y => Some (x, y) | _, _ => None end | _ => None end.
+Definition get_box (s : sx) : option (list (Qc * Qc)) :=
+  match s with Lv l => opt_all (map get_pair l) | _ => None end.
+
+(* first degree whose moment check fails, or -1 *)
+Fixpoint first_bad {A} (f : A -> bool) (l : list A) (i : Z) : Z :=
+  match l with [] => -1 | x :: r => if f x then first_bad f r (i + 1) else i end.
+
+(* sub 0: (fam bnd ((a b s e level) ...) ((k_1 .. k_d) ...))
+          -> (numPoints coords1d weights1d points weights (integral per exponent vector) (exact moment per exponent vector))
+   sub 1: (pts wts s e k rtol) -> (ok first_bad_degree)
+   sub 2: (cntfam bnd a b s e level) -> (np npwb lo up slice_length)
+   sub 3: (pts wts ((s e) ...) ((k_1 .. k_d) ...) rtol) -> (nd_moments_ok all_inside position_of_first_bad_exponent_vector) *)
+Definition entry_C08 (sub : Z) (a : sx) : sx :=
+  match sub, a with
+  | 0, Lv [Zv fam; bnd; dims; exps] =>
+    match eqfam_of fam, get_bool bnd, get_dims dims, get_LLnat exps with
+    | Some f, Some bnd, Some xs, Some exps =>
+      Lv [ of_Lnat (grid_num_points bnd xs);
+           of_LLQc (grid_coords bnd xs);
+           of_LLQc (grid_weights1 f bnd xs);
+           of_LLQc (grid_points bnd xs);
+           of_LQc (grid_weights f bnd xs);
+           of_LQc (map (grid_integrate_monomial f bnd xs) exps);
+           of_LQc (map (box_moment xs) exps) ]
+    | _, _, _, _ => sx_err 1
+    end
+  | 1, Lv [pts; wts; s; e; Zv k; rtol] =>
+    match get_LQc pts, get_LQc wts, get_Qc s, get_Qc e, get_Qc rtol with
+    | Some pts, Some wts, Some s, Some e, Some rtol =>
+      Lv [ sx_bool (moments_ok pts wts s e (Z.to_nat k) rtol);
+           Zv (if (length pts =? length wts)%nat
+               then match moments_first_bad pts wts s e (Z.to_nat k) rtol with Some j => Z.of_nat j | None => -1 end
+               else -2) ]
+    | _, _, _, _, _ => sx_err 2
+    end
+  | 2, Lv [Zv fam; bnd; a; b; s; e; Zv l] =>
+    match cntfam_of fam, get_bool bnd, get_Qc a, get_Qc b, get_Qc s, get_Qc e with
+    | Some f, Some bnd, Some a, Some b, Some s, Some e =>
+      let '(np, npwb, lo, up, len) := cnt_info f bnd a b s e (Z.to_nat l) in
+      of_Lnat [np; npwb; lo; up; len]
+    | _, _, _, _, _, _ => sx_err 3
+    end
+  | 3, Lv [pts; wts; box; expss; rtol] =>
+    match get_LLQc pts, get_LQc wts, get_box box, get_LLnat expss, get_Qc rtol with
+    | Some pts, Some wts, Some box, Some expss, Some rtol =>
+      Lv [ sx_bool (nd_moments_ok pts wts box expss rtol);
+           sx_bool (forallb (inside_box box) pts);
+           Zv (first_bad (nd_moment_ok pts wts box rtol) expss 0) ]
+    | _, _, _, _, _ => sx_err 4
+    end
+  | _, _ => sx_err 0
+  end.
